@@ -26,6 +26,7 @@ fn run(ctx: &Ctx) -> Report {
             closure::encoder_closure(ctx, &mut rep, &mut unit);
             closure::decoder_closure(ctx, &mut rep, &mut unit);
             twin::run(ctx, &mut rep, &mut unit);
+            prod::many_pieces(ctx, &mut rep, &mut unit);
             owning_iovec::verif::drain_quarantine();
             bigblock::run(ctx, &mut rep, &mut unit);
             longrun::run_roundtrip(ctx, &mut rep, &mut unit);
@@ -38,6 +39,7 @@ fn run(ctx: &Ctx) -> Report {
             prod::find_stuff_exhaustive(ctx, &mut rep, &mut unit);
             closure::encoder_closure(ctx, &mut rep, &mut unit);
             twin::run(ctx, &mut rep, &mut unit);
+            prod::many_pieces(ctx, &mut rep, &mut unit);
             prod::length_sweep(ctx, &mut rep, &mut unit);
         }
         "C07" => {
@@ -49,6 +51,7 @@ fn run(ctx: &Ctx) -> Report {
             closure::encoder_closure(ctx, &mut rep, &mut unit);
             closure::decoder_closure(ctx, &mut rep, &mut unit);
             twin::run(ctx, &mut rep, &mut unit);
+            prod::many_pieces(ctx, &mut rep, &mut unit);
             owning_iovec::verif::drain_quarantine();
             bigblock::run(ctx, &mut rep, &mut unit);
             owning_iovec::verif::set_quarantine(true);
